@@ -134,7 +134,10 @@ def _scope(depth):
     levels = ["same", "same", "core", "assembly", "block", "block", "component", "excore"] + (["reactor", "reactor"] if depth == 1 else [])
     return st.fixed_dictionaries(
         {"scope": st.sampled_from(levels), "obj": st.integers(0, 10**6), "keep": _keep(), "inherit": st.booleans(),
-         "keepnd": st.sampled_from([False, False, True]), "body": _body(depth)}
+         "keepnd": st.sampled_from([False, False, True]), "keeparr": st.one_of(st.none(), st.integers(0, 10**6)), "body": _body(depth),
+         # the body may end by an exception after ``raise`` items (modulo len + 1); it leaves this scope as a `with` block does and is
+         # caught by the harness after passing through ``catch`` further enclosing scopes (the program then carries on there)
+         "raise": st.one_of(st.none(), st.none(), st.none(), st.integers(0, 4)), "catch": st.sampled_from([0, 0, 1, 2])}
     )
 
 
@@ -313,6 +316,14 @@ def _bucket(difftext, kept_names=()):
 
 class Stop(Exception):
     pass
+
+
+class BodyError(Exception):
+    """Raised by the harness inside a scope body at a generated point; ``levels`` = enclosing scopes it still passes through."""
+
+    def __init__(self, levels):
+        Exception.__init__(self, "generated error in a scope body")
+        self.levels = levels
 
 
 class Frame:
@@ -532,6 +543,26 @@ class Interp:
                 targets.extend([(f, d)] * (3 if d.name == "numberDensities" else 1))
         if not targets:
             return self.op_param(op, base)
+        if len(self.frames) >= 2 and op["n"] % 2 == 0:
+            # an ARRAY parameter that the innermost scope and at least one enclosing scope both keep, assigned here (inside the
+            # innermost scope) on an object nothing else was assigned on; later operations leave that object alone when they can
+            inner = self.frames[-1]
+            both = []
+            for d in inner.defs:
+                if sum(1 for f in self.frames if any(d is x for x in f.defs)) < 2:
+                    continue
+                for i in self.subtree(inner.idx):
+                    if i in self.touched or i in self.inplace_only or not self.has_def(self.objs[i], d):
+                        continue
+                    kind = dict(TABLES[self.level[i]]).get(d.name)
+                    if kind in ARRAY_KINDS and len(self.keepers(i, d.name)) >= 2:
+                        both.append((i, d.name, kind))
+            if both:
+                i, name, kind = both[op["obj"] % len(both)]
+                self._assign_kind(i, name, kind, op)
+                self.inplace_only.add(i)
+                self.counts["kept-array-by-nested-scopes-only-change"] += 1
+                return
         f, d = targets[op["pidx"] % len(targets)]
         if op["n"] % 4 == 3:
             # a namesake: same parameter name on an object of another class inside the scope (not kept)
@@ -783,12 +814,21 @@ class Interp:
                 defs.append(d)
         return defs
 
-    def run_items(self, items):
-        for item in items:
+    def run_items(self, items, raise_at=None, levels=0):
+        for n, item in enumerate(items):
+            if n == raise_at:
+                raise BodyError(levels)
             if "body" in item:
-                self.run_scope(item)
+                try:
+                    self.run_scope(item)
+                except BodyError:
+                    if self.frames:
+                        raise  # still inside a scope it has to leave
+                    # caught at the top level: the program carries on
             else:
                 self.apply(item)
+        if raise_at is not None and raise_at >= len(items):
+            raise BodyError(levels)
 
     def run_scope(self, item):
         import numpy as np
@@ -828,6 +868,20 @@ class Interp:
             # a nested scope that also keeps what its enclosing scope keeps
             defs += [d for d in self.frames[-1].defs if not any(d is x for x in defs)]
             self.counts["keep-inherited"] += 1
+        if item.get("keeparr") is not None:
+            # the scope also keeps the array parameters its enclosing scopes keep (so that keep-sets overlap on arrays at several
+            # depths); if there is none, one array parameter of some object of the subtree
+            arrs = [d for f in self.frames for d in f.defs
+                    if any(self.has_def(self.objs[i], d) and dict(TABLES[self.level[i]]).get(d.name) in ARRAY_KINDS for i in self.subtree(idx))]
+            if not arrs:
+                holders = [(i, n) for i in self.subtree(idx) for n, k in self.table(i) if k in ARRAY_KINDS]
+                if holders:
+                    i, n = holders[item["keeparr"] % len(holders)]
+                    arrs = [self.objs[i].p.paramDefs[n]]
+            for d in arrs:
+                if not any(d is x for x in defs):
+                    defs.append(d)
+            self.counts["keep-array"] += 1
         if item.get("keepnd"):
             # the scope also keeps the component compositions (changed in place by setNumberDensity, see op_keptassign)
             holder = self.pick("component", item["obj"], idx)
@@ -855,13 +909,21 @@ class Interp:
         ctx = obj.retainState(list(frame.defs))
         ctx.__enter__()
         self.frames.append(frame)
+        err = None
         try:
-            self.run_items(item["body"])
+            raise_at = None if item.get("raise") is None else item["raise"] % (len(item["body"]) + 1)
+            self.run_items(item["body"], raise_at, item.get("catch", 0))
+        except BodyError as e:  # raised in this body or passing through from a nested scope
+            err = e
+            self.counts["scope-left-by-exception"] += 1
         finally:
             self.frames.pop()
         pre = snapshot(self.root)
         try:
-            ctx.__exit__(None, None, None)
+            if err is None:
+                ctx.__exit__(None, None, None)
+            else:
+                ctx.__exit__(type(err), err, err.__traceback__)  # what the `with` statement does when the body raises
         except ValueError as e:
             if self.shape_trigger and "broadcast" in str(e):
                 self.out.fail(SIG_SHAPE, "leaving a scope on %s that keeps %s raised ValueError(%s): a kept array changed shape inside the scope"
@@ -928,14 +990,18 @@ class Interp:
                 sig = "%s/grid-not-restored" % self.prefix  # same grid object as inside the scope: one root cause, one signature
             else:
                 sig = "%s/outside-scope-changed/%s" % (self.prefix, clause)
-            self.out.fail(sig, "after leaving scope #%d (depth %d) on %s %r keeping %s: %s %r %s: %s (expected != armi)"
-                          % (self.counts["exits"], depth, self.level[idx], obj.name, keepnames, self.level[i], self.objs[i].name,
+            self.out.fail(sig, "after leaving scope #%d%s (depth %d) on %s %r keeping %s: %s %r %s: %s (expected != armi)"
+                          % (self.counts["exits"], " BY AN EXCEPTION raised in its body" if err is not None else "", depth, self.level[idx], obj.name, keepnames, self.level[i], self.objs[i].name,
                              "inside" if inside else "OUTSIDE the scope", d[0]))
             if bad >= 3:
                 break
         self.counts["exits"] += 1
         if bad:
             raise Stop()
+        if err is not None and err.levels > 0 and self.frames:
+            err.levels -= 1
+            self.counts["exception-through-enclosing-scope"] += 1
+            raise err  # not caught here: the enclosing scope is left by the same exception
 
 
 # =============================================================================================
